@@ -228,14 +228,16 @@ func (collection *linkCollectionImpl) CheckIntegrity(ctx MutateContext, fix bool
 
 	for idCursor := collection.field.GetStore().IterateValidIds(tx, ast.BoolNodeTrue); idCursor.IsValid(); idCursor.Next() {
 		id := idCursor.Current()
+		// links to remove are collected and removed once the cursor is done with the bucket: deleting from a bucket
+		// under a cursor makes the cursor's Next() skip the following link if the bucket was already written to in this
+		// transaction (e.g. by the fix of a missing reverse link, made from the other store), see TestCursorDeleteBuggy
+		var danglingLinks [][]byte
 		for linkCursor := collection.IterateLinks(tx, id); linkCursor.IsValid(); linkCursor.Next() {
 			linkId := linkCursor.Current()
 			linkValid := collection.otherField.GetStore().IsEntityPresent(tx, string(linkId))
 			if !linkValid {
 				if fix {
-					if _, err := collection.RemoveLink(tx, id, linkId); err != nil {
-						return err
-					}
+					danglingLinks = append(danglingLinks, append([]byte(nil), linkId...))
 				}
 				err := errors.Errorf("%v %v references %v %v, which doesn't exist",
 					collection.field.GetStore().GetSingularEntityType(), string(id),
@@ -251,6 +253,11 @@ func (collection *linkCollectionImpl) CheckIntegrity(ctx MutateContext, fix bool
 					collection.field.GetStore().GetSingularEntityType(), string(id),
 					collection.otherField.GetStore().GetSingularEntityType(), string(linkId))
 				errorSink(err, fix)
+			}
+		}
+		for _, linkId := range danglingLinks {
+			if _, err := collection.RemoveLink(tx, id, linkId); err != nil {
+				return err
 			}
 		}
 	}
